@@ -42,10 +42,10 @@ class Machine:
             if isinstance(op, (ast.IsNot, ast.NotEq)) and UNKNOWN not in (l, r):
                 return l != r
             # type(value) is bool
-            if isinstance(node.left, ast.Call) and ast.unparse(node.left.func) == "type" and isinstance(op, ast.Is):
+            if isinstance(node.left, ast.Call) and ast.unparse(node.left.func) == "type" and isinstance(op, (ast.Is, ast.IsNot, ast.Eq, ast.NotEq)):
                 v = self.value(node.left.args[0], state, env, selfname)
                 if v is not UNKNOWN and ast.unparse(node.comparators[0]) == "bool":
-                    return isinstance(v, bool)
+                    return isinstance(v, bool) if isinstance(op, (ast.Is, ast.Eq)) else not isinstance(v, bool)
             return None
         if isinstance(node, ast.UnaryOp) and isinstance(node.op, ast.Not):
             v = self.test(node.operand, state, env, selfname)
